@@ -68,14 +68,27 @@ func (g *gateState) afterWrite() {
 	}
 }
 
+// leave is the optional gate BEHIND a store call (World.PostGates): a task can
+// then be pre-empted between the return of a read and the code that acts on
+// what was read (e.g. before it installs the value in an in-memory copy).
+func (g *gateState) leave(point, key string) {
+	if g.w.PostGates {
+		g.enter(point+".ret", key)
+	}
+}
+
 func (g *gateState) Get(key string) ([]byte, error) {
 	g.enter("st.get", key)
-	return g.real.Get(key)
+	v, err := g.real.Get(key)
+	g.leave("st.get", key)
+	return v, err
 }
 
 func (g *gateState) GetOrError(key string) ([]byte, error) {
 	g.enter("st.getOrErr", key)
-	return g.real.GetOrError(key)
+	v, err := g.real.GetOrError(key)
+	g.leave("st.getOrErr", key)
+	return v, err
 }
 
 func (g *gateState) Set(key string, value []byte) error {
@@ -85,6 +98,7 @@ func (g *gateState) Set(key string, value []byte) error {
 	if err == nil && g.OnWrite != nil {
 		g.OnWrite("set", key, value)
 	}
+	g.leave("st.set", key)
 	return err
 }
 
